@@ -271,6 +271,7 @@ func c14Closures(c *core.Ctx) {
 		return func(...any) error { hits["marshal"]++; return e }
 	}
 	uOut := []any{"CUSTOM", 1}
+	var umErr error
 	var installed struct{ vp, vpReject, pp, eq, um, ma bool }
 	maNil := false
 	hits := map[string]int{}
@@ -323,7 +324,12 @@ func c14Closures(c *core.Ctx) {
 			}
 			installed.eq = false
 		case 6:
-			s.SetUnmarshaler(func(...any) ([]any, error) { hits["unmarshal"]++; return uOut, nil })
+			umErr = nil
+			if r.Chance(1, 3) {
+				umErr = errors.New("unmarshal closure: partial result") // a closure may hand back a slice AND the reason it is partial
+			}
+			ue := umErr
+			s.SetUnmarshaler(func(...any) ([]any, error) { hits["unmarshal"]++; return uOut, ue })
 			installed.um = true
 			log = append(log, "SetUnmarshaler(f)")
 		case 7:
@@ -442,8 +448,8 @@ func c14Closures(c *core.Ctx) {
 		}
 		u, uerr := s.Unmarshal()
 		if installed.um {
-			if uerr != nil || len(u) != 2 || u[0] != "CUSTOM" {
-				c.Violatef("unmarshal-closure-ignored", desc(), "Unmarshal()=%v,%v; closure returns [CUSTOM 1]", u, uerr)
+			if uerr != umErr || len(u) != 2 || u[0] != "CUSTOM" {
+				c.Violatef("unmarshal-closure-ignored", desc(), "Unmarshal()=%v,%v; closure returns [CUSTOM 1] and error %v", u, uerr, umErr)
 				return
 			}
 		} else {
